@@ -5,6 +5,7 @@ mod eval;
 mod gen;
 mod rng;
 mod show;
+mod oracle;
 mod sweep;
 
 use std::process::ExitCode;
